@@ -258,6 +258,10 @@ impl RngCore for FaultRng {
 
     fn fill_bytes(&mut self, d: &mut [u8]) {
         self.bytes_drawn += d.len() as u64;
+        // a prover that rejection-samples straight from a stuck external RNG would spin for ever
+        if self.bytes_drawn > (1 << 22) {
+            panic!("external RNG drained: more than 4 MiB drawn by one call (rejection sampling on a stuck RNG?)");
+        }
         match &self.kind {
             RngKind::Healthy(_) => self.chacha.as_mut().unwrap().fill_bytes(d),
             RngKind::AllZero => d.fill(0),
